@@ -158,8 +158,28 @@ func c09Run(c *Ctx) {
 		c.Violate("setup-error", "generated declaration rejected: %v", b.Err)
 		return
 	}
-	handlerSentinel := &sentinelErr{-1}
+	var handlerSentinel error = &sentinelErr{-1}
 	handlerReturnsErr := withHandler && r.Chance(1, 4)
+	if fault == "exec-error" {
+		// what a command returns is the application's business: its own error values, but just as well one of the
+		// library's ErrorType constants (they implement error) or a *flags.Error it built itself
+		for _, cm := range d.Cmds[1:] {
+			if cm.Node == nil {
+				continue
+			}
+			switch cm.ID % 4 {
+			case 1:
+				cm.Node.ret = flags.ErrHelp
+			case 2:
+				cm.Node.ret = flags.ErrRequired
+			case 3:
+				cm.Node.ret = &flags.Error{Type: flags.ErrUnknownFlag, Message: fmt.Sprintf("the command's own complaint %d", cm.ID)}
+			}
+		}
+		if c.K%3 == 1 {
+			handlerSentinel = flags.ErrHelp
+		}
+	}
 	if withHandler {
 		b.P.CommandHandler = func(cmd flags.Commander, a []string) error {
 			id := 0
